@@ -216,19 +216,24 @@ def h_match(case):
     form = case.get('form', 'list')
     if form == 'list':
         m.init(phrases)
+        ids = [str(p) for p in phrases]
     elif form == 'ids':
-        m.init(phrases, case['ids'])
+        ids = list(case['ids'])
+        m.init(phrases, list(ids))
     else:
+        ids = list(case['ids'])
         d = {}
-        for p, i in zip(phrases, case['ids']):
+        for p, i in zip(phrases, ids):
             d.setdefault(i, []).append(p)
         m.init(d)
     q = ''.join(chr(c) for c in case['query'])
     res = []
     for r in m.find(q):
         res.append({'start': r.start, 'length': r.length, 'cps': [ord(c) for c in (r.text or '')],
-                    'ids': sorted(_s(x) for x in r.canonical_values)})
-    return {'matches': res}
+                    'ids': sorted(set(_s(x) for x in r.canonical_values))})
+    tok = lambda t: [{'start': x.start, 'length': x.length, 'cps': [ord(c) for c in x.text]} for x in m.tokenizer.tokenize(t)]
+    return {'matches': res, 'qtoks': tok(q),
+            'dict': [{'toks': [t['cps'] for t in tok(p)], 'id': i} for p, i in zip(phrases, ids)]}
 
 
 def h_collapse(case):
